@@ -5,3 +5,4 @@ import AvroProofs.Lemmas.DecodeSide
 import AvroProofs.Lemmas.DecodeConforms
 import AvroProofs.C01
 import AvroProofs.C06
+import AvroProofs.C05
